@@ -583,6 +583,8 @@ public:
   void dissociateNode(Nref nodeObject)
   {
     typename std::map<Nref, NodeGraphid>::iterator nodeToForget = NToGraphid_.find(nodeObject);
+    if (nodeToForget == NToGraphid_.end())
+      throw Exception("AssociationGraphImplObserver::dissociateNode : unexisting node object: " + TextTools::toString(nodeObject));
     graphidToN_.at(nodeToForget->second) = 00;
     NToGraphid_.erase(nodeToForget);
   }
@@ -591,6 +593,8 @@ public:
   void dissociateEdge(Eref edgeObject)
   {
     typename std::map<Eref, EdgeGraphid>::iterator edgeToForget = EToGraphid_.find(edgeObject);
+    if (edgeToForget == EToGraphid_.end())
+      throw Exception("AssociationGraphImplObserver::dissociateEdge : unexisting edge object: " + TextTools::toString(edgeObject));
     graphidToE_.at(edgeToForget->second) = 00;
     EToGraphid_.erase(edgeToForget);
   }
